@@ -380,6 +380,13 @@ def combos(rng, d, depth):
                 rng.choice([{"p": 1, "r": 2}, [1, 2]]), {"p": 1}
         if cell == "d3-required":
             return cell, {"properties": {"p": s1, "q": {"required": True}, "r": dict(s3, required=True)}}, {"p": g1}, {"p": g1, "q": 1, "r": g3}
+        if cell == "hostile-keys":
+            names = ["[0]", "a.[b", ".", "a.b", "[", "]", "$", "", " ", "0", "a[1]", ".[", "'", '"', "\\", "é", "$.a", "[0].x"]
+            rng.shuffle(names)
+            pick = names[:5]
+            return cell, {"properties": {pick[0]: s3, pick[1]: {"items": s3}}, "additionalProperties": s3,
+                          "patternProperties": {"^zz": s1}}, \
+                {pick[0]: b3, pick[1]: [g3, b3], pick[2]: b3, pick[3]: {pick[4]: b3}, "zz" + pick[2]: b1}, {pick[0]: g3}
         if cell == "contains-not":
             return cell, {"items": [{}, {"not": {}}, {"contains": {"type": "null"}}]}, [1, 2, [3]], [1]
         raise AssertionError(cell)
@@ -405,7 +412,7 @@ def _bad_for_all(d, schemas):
 
 def cells(d):
     c = ["items-list", "items-schema", "additionalItems", "properties", "patternProperties", "additionalProperties",
-         "dependencies"]
+         "dependencies", "hostile-keys"]
     if d == 3:
         c += ["extends-list", "extends-schema", "type-union", "d3-required"]
     else:
